@@ -64,10 +64,14 @@ pub fn gen(prop: &str, scen: &str, _k: u64, seed: u64, tier: &str) -> Case {
             _ => {}
         }
     }
-    if case.fmt == "lzip" && case.opt.dict > (64 << 20) && (seed >> 11) % 48 != 0 {
+    if case.fmt == "lzip" && case.opt.dict > (64 << 20) {
         // LZIP clamps an over-large dictionary to 512 MiB and then really allocates it (about
-        // 2.7 GiB and two minutes per run): keep a few such runs, not thousands
-        case.opt.dict = 65535;
+        // 2.7 GiB and two minutes per run, more than the watchdog allows on a busy machine):
+        // the other formats cover the "dictionary far too large" value, LZIP gets a moderate one
+        case.opt.dict = (64 << 20) + 1;
+        if (seed >> 11) % 8 != 0 {
+            case.opt.dict = 65535;
+        }
     }
     let mut len = *rng.pick(&[0usize, 1, 5, 100, 5000, 70000, if big { 700_000 } else { 20000 }]);
     if rng.pct(4) && case.opt.dict <= 65536 {
